@@ -749,7 +749,9 @@ def judge_case(prop, kind, lines):
         if ln.op.startswith("!"):
             # an operation during which an injected user panic (Ord::cmp / callback) may have fired
             if ln.fault:
-                if ln.res != "fault user" or not ln.op.startswith("!cmp"):
+                survivable = ln.op.startswith("!cmp") or (ln.op.startswith("!cb") and ln.args and ln.args[0] in (
+                    "change_priority_by", "pop_if", "pop_min_if", "pop_max_if", "extend", "from_iter"))
+                if ln.res != "fault user" or not survivable:
                     return None            # other fault kinds are judged by the C10 crash stream, not here
                 # the panic was caught and the queue survives (C10): the case goes on from the post-unwinding state read
                 # through the hook; the order of such a queue is unspecified until something rebuilds it, everything
